@@ -453,7 +453,7 @@ class Expect:
             bs = [v[1][i:i + 2] for i in range(0, len(v[1]), 2)]
             return "&[" + "".join("0x%s," % b.lower() for b in bs) + "]"
         if v[0] == "enum":
-            return None if ty[0] != "ref" else "&%s::%s" % (ty[1], variant_of(v[1]))
+            return None if ty[0] != "ref" else "&%s::%s" % (variant_of(ty[1]) if "-" in ty[1] else ty[1], variant_of(v[1]))
         return None
 
     def comp_tags(self, comps):
@@ -585,11 +585,14 @@ def same_modulo_escape(a, b):
 
 
 def norm_lit_names(t):
-    """ENUMERATED default literals are printed with mangled names (red -> Red): compare them case-insensitively without separators"""
+    """ENUMERATED default literals are printed with mangled names (red -> Red, a-b -> AB): the purposeful renaming is ONE
+    application of rust_struct_or_enum_name / rust_variant_name.  Applied to both sides: the start model holds the ASN.1
+    spelling, the re-parsed one the mangled spelling, which has to be a fixed point of the comparison only if nobody mangled
+    it a second time -- so the re-parsed side is compared as it is (see diff_defs: r2 is NOT normalised)."""
     if t[0] == "default":
         lit = t[2]
         if lit[0] == "enum":
-            lit = ("enum", lit[1].replace("-", "").replace("_", "").lower(), lit[2].replace("-", "").replace("_", "").lower())
+            lit = ("enum", crate_type_name(lit[1]), crate_type_name(lit[2]))
         return ("default", norm_lit_names(t[1]), lit)
     if t[0] == "option":
         return ("option", norm_lit_names(t[1]))
@@ -628,7 +631,7 @@ def diff_defs(r1, r2):
         for f1, f2 in zip(r1["fields"], r2["fields"]):
             if not same_modulo_escape(f1[0], f2[0]):
                 out.append(("reparse_field_name_differs", "%s.%s became %s" % (r1["name"], f1[0], f2[0])))
-            if norm_lit_names(f1[1]) != norm_lit_names(f2[1]):
+            if norm_lit_names(f1[1]) != f2[1]:
                 out.append((type_diff_class(f1[1], f2[1]), "%s.%s: %s became %s" % (r1["name"], f1[0], f1[1], f2[1])))
             if f1[2] != f2[2]:
                 out.append(("reparse_field_tag_differs", "%s.%s: tag %s became %s" % (r1["name"], f1[0], f1[2], f2[2])))
@@ -647,12 +650,12 @@ def diff_defs(r1, r2):
         for v1, v2 in zip(r1["variants"], r2["variants"]):
             if v1[0] != v2[0]:
                 out.append(("reparse_variant_name_differs", "%s::%s became %s" % (r1["name"], v1[0], v2[0])))
-            if norm_lit_names(v1[1]) != norm_lit_names(v2[1]):
+            if norm_lit_names(v1[1]) != v2[1]:
                 out.append((type_diff_class(v1[1], v2[1]), "%s::%s: %s became %s" % (r1["name"], v1[0], v1[1], v2[1])))
             if v1[2] != v2[2]:
                 out.append(("reparse_variant_tag_differs", "%s::%s: tag %s became %s" % (r1["name"], v1[0], v1[2], v2[2])))
     else:
-        if norm_lit_names(r1["type"]) != norm_lit_names(r2["type"]):
+        if norm_lit_names(r1["type"]) != r2["type"]:
             out.append((type_diff_class(r1["type"], r2["type"]), "%s: %s became %s" % (r1["name"], r1["type"], r2["type"])))
         if r1["consts"] != r2["consts"]:
             base = r1["type"]
@@ -684,7 +687,7 @@ def consts_diff_class(t, back):
 def type_diff_class(a, b):
     """narrow class for a RustType that came back different"""
     while a[0] == b[0] and a[0] in ("option", "default", "vec"):
-        if a[0] == "default" and a[2] != b[2] and norm_lit_names(("default", ("null",), a[2])) != norm_lit_names(("default", ("null",), b[2])):
+        if a[0] == "default" and a[2] != b[2] and norm_lit_names(("default", ("null",), a[2])) != ("default", ("null",), b[2]):
             return "reparse_default_literal_differs"
         if a[0] == "vec" and (a[1], a[2]) != (b[1], b[2]):
             return "reparse_vec_size_or_order_differs"
@@ -861,9 +864,69 @@ def module_has_confusable_pair(m):
     return any(walk(d[2]) for d in m["defs"])
 
 
+# Identifiers on which rust.rs rust_variant_name / rust_struct_or_enum_name is NOT idempotent (found with op 3410: adjacent
+# single-letter hyphen segments, a-b -> AB -> Ab; rust_field_name, rust_constant_name, rust_module_name and the generator's
+# own three functions are idempotent on everything tried).  A name that is mangled a second time somewhere on the macro
+# path (a DEFAULT literal Plan::AB, complex(RouteTA, ..), extensible_after(AB), ..) no longer names what it did.
+NONIDEM_IDS = ["a-b", "x-y-z", "plan-b-c", "a-b1", "item-a-b", "mode-s-t", "is-a-b"]
+NONIDEM_TYPES = ["Route-T-A", "Rec-A-B", "Pick-X-Y", "T-A", "Plan-B-C"]
+NONIDEM_VARIANTS = ["AB", "XYZ", "PlanBC", "AB1", "ItemAB", "ModeST", "IsAB"]      # the items above, mangled once
+NONIDEM_TYPE_NAMES = ["RouteTA", "RecAB", "PickXY", "TA", "PlanBC"]
+
+
+def nonidem_module(name, plan="Plan", route="Route-T-A", rec="Rec-A-B", pick="Pick-X-Y", ta="T-A"):
+    """the family at every position where a name travels through generated text and is read back or referenced again"""
+    return M(name, [
+        T(plan, EN(["a-b", "plan-b-c", "x-y-z", "other"])),
+        T(route, EN(["item-a-b", "mode-s-t", "is-a-b"], 2)),
+        T(rec, SEQ([C("is-a-b", BOOL), C("a-b1", INT(0, 9, named=[["a-b", 1], ["x-y-z", 2]])), C("x-y-z", REF(plan), ["def", ["enum", "x-y-z"]])], 2)),
+        T(pick, CH([("a-b", BOOL), ("x-y-z", REF(rec)), ("plan-b-c", REF(route)), ("mode-s-t", REF(plan))], 2)),
+        T("S", SEQ([C("p", REF(plan), ["def", ["enum", "a-b"]]), C("q", REF(route), ["def", ["enum", "mode-s-t"]]), C("r", REF(rec)),
+                    C("l", ["seqof", None, REF(route)]), C("e", REF(plan), ["def", ["enum", "plan-b-c"]]), C("c", REF(pick), "opt")], 4)),
+        T("X", SET([C("p", REF(plan), ["def", ["enum", "x-y-z"]]), C("k", ["setof", RNG(0, 3), REF(rec)]), C("e", REF(route), ["def", ["enum", "item-a-b"]])], 2)),
+        T(ta, INT(0, {"ref": "max-a-b"}, named=[["a-b", 0], ["mode-s-t", 7]]))],
+        vals=[["max-a-b", "INTEGER", 7]])
+
+
+def nonidem_positions(m):
+    """number of places in the abstract module where a name of the non-idempotent family sits in a DEFAULT / reference /
+    extensible_after position (an ENUMERATED DEFAULT naming such an item, a reference to such a type name, the member
+    the marker follows)"""
+    def bad(n):
+        return crate_type_name(crate_type_name(n)) != crate_type_name(n)
+    count = [0]
+
+    def walk(ty):
+        k = ty[0]
+        if k in ("seq", "set"):
+            for i, (cn, _tag, cty, opt) in enumerate(ty[1]):
+                if isinstance(opt, list) and isinstance(opt[1], list) and opt[1][0] == "enum" and bad(opt[1][1]):
+                    count[0] += 1
+                walk(cty)
+            if ty[2] and bad(ty[1][ty[2] - 1][0]):
+                count[0] += 1
+        elif k == "choice":
+            for _an, _tag, aty in ty[1]:
+                walk(aty)
+            if ty[2] and bad(ty[1][ty[2] - 1][0]):
+                count[0] += 1
+        elif k == "enum":
+            if ty[2] and bad(ty[1][ty[2] - 1][0]):
+                count[0] += 1
+        elif k in ("seqof", "setof"):
+            walk(ty[2])
+        elif k == "ref" and bad(ty[1]):
+            count[0] += 1
+    for _n, _tag, ty in m["defs"]:
+        walk(ty)
+    return count[0]
+
+
 def templates():
     """hand-written pool: every production of the attribute language at least once"""
     P = []
+    P.append(nonidem_module("NonIdem"))
+    P.append(nonidem_module("NonIdemB", plan="Plan-B-C", route="A-B", rec="X-Y-Z", pick="Mode-S", ta="Item-A-B"))
     for kind in ("seq", "set", "choice", "enum"):
         P.append(M("Confusable" + kind.capitalize(), confusable_defs(kind)))
     # 0 integer range forms on a transparent type and as components
@@ -1117,7 +1180,26 @@ class Gen:
             defs.append(T(names[i], ty, self.tag() if r.random() < 0.2 else None))
             self.refs.append(names[i])
         defs.reverse()
+        if r.random() < 0.25:
+            defs += self.nonidem_bundle()
         return M("Gen%d" % self.n, defs, auto=r.random() < 0.8)
+
+    def nonidem_bundle(self):
+        """an ENUMERATED (often with a non-idempotent type name) whose non-idempotent items are named by DEFAULTs at root and
+        extension positions of a SEQUENCE / SET, referenced below SEQUENCE OF and as a CHOICE alternative type"""
+        r = self.rng
+        ename, sname, cname = r.sample(NONIDEM_TYPES + ["Plan", "Mode"], 3)
+        items = r.sample(NONIDEM_IDS, r.randrange(2, 5)) + (["plain"] if r.random() < 0.5 else [])
+        r.shuffle(items)
+        enum = T(ename, EN(items, None if r.random() < 0.5 else r.randrange(1, len(items) + 1)))
+        pick = lambda: r.choice([i for i in items if i != "plain"])
+        comps = [C("fa", REF(ename), ["def", ["enum", pick()]]), C(r.choice(NONIDEM_IDS), BOOL, "opt"),
+                 C("fl", [r.choice(["seqof", "setof"]), None, REF(ename)]), C("fe", REF(ename), ["def", ["enum", pick()]])]
+        comps = comps[:r.randrange(2, 5)]
+        struct = T(sname, [r.choice(["seq", "set"]), comps, None if r.random() < 0.4 else r.randrange(1, len(comps) + 1)])
+        alts = r.sample(NONIDEM_IDS, 2)
+        choice = T(cname, CH([(alts[0], REF(ename)), (alts[1], REF(sname)), ("zz", BOOL)], None if r.random() < 0.4 else r.randrange(1, 4)))
+        return [enum, struct, choice]
 
 
 # --------------------------------------------------------------------------------------------- op 3412: attribute types
@@ -1137,8 +1219,12 @@ def model_implements(probe):
 
 class AttrGen:
     """random attribute types in the image of to_rust + into_asn (encoding: coq/Extract/OpsCodegen.v)"""
-    NAMES = ["T", "Tb", "Colour", "MyType", "X1", "Other", "A9b"]
+    NAMES = ["T", "Tb", "Colour", "MyType", "X1", "Other", "A9b", "RouteTA", "TA"]
     VARIANTS = ["Red", "DarkBlue", "A", "X1"]
+    # ENUMERATED default literals also in the ASN.1 spelling the start model holds: printed mangled ONCE (a-b -> AB), and a
+    # second mangling (AB -> Ab) would show in what comes back
+    LIT_TYPES = ["Colour", "Plan", "Route-T-A", "T-A", "Plan-B-C"]
+    LIT_VARIANTS = ["Red", "dark-blue", "a-b", "x-y-z", "plan-b-c", "a-b1", "item-a-b", "mode-s-t"]
 
     def __init__(self, rng):
         self.rng = rng
@@ -1187,6 +1273,8 @@ class AttrGen:
         if k == 4:
             return [3, 2, 222, 173] if r.random() < 0.5 else [3, 0]
         if k == 10:
+            if r.random() < 0.5:
+                return [4] + e_str(r.choice(self.LIT_TYPES)) + e_str(r.choice(self.LIT_VARIANTS))
             return [4] + e_str(r.choice(self.NAMES)) + e_str(r.choice(self.VARIANTS))
         return None
 
@@ -1220,6 +1308,61 @@ class AttrGen:
             l = self.lit_for(t)
             return ([7] + t + l) if l is not None else [6] + t
         return [r.choice([8, 9])] + self.size() + self.ty(depth - 1)
+
+
+def mangle_enum_lits(a):
+    """the attribute type encoding `a` with the names of every ENUMERATED default literal mangled once (what the printer
+    does on purpose: LiteralValue::as_rust_const_literal(true)); everything else unchanged"""
+    out = []
+
+    def size(p):
+        n = {0: 1, 1: 3, 2: 4}[a[p]]
+        out.extend(a[p:p + n])
+        return p + n
+
+    def walk(p):
+        k = a[p]
+        out.append(k)
+        if k in (0, 1):
+            return p + 1
+        if k == 2:
+            out.extend(a[p + 1:p + 6])
+            return p + 6
+        if k in (3, 4, 5):
+            q = size(p + 1)
+            if k == 3:
+                out.append(a[q])
+                q += 1
+            return q
+        if k == 6:
+            return walk(p + 1)
+        if k == 7:
+            q = walk(p + 1)
+            lk = a[q]
+            if lk in (0, 2):
+                out.extend(a[q:q + 2])
+                return q + 2
+            if lk in (1, 3):
+                out.extend(a[q:q + 2 + a[q + 1]])
+                return q + 2 + a[q + 1]
+            out.append(4)
+            q += 1
+            for _ in range(2):
+                name = "".join(chr(c) for c in a[q + 1:q + 1 + a[q]])
+                out.extend(e_str(crate_type_name(name)))
+                q += 1 + a[q]
+            return q
+        if k in (8, 9):
+            return walk(size(p + 1))
+        if k == 10:
+            q = p + 2 + a[p + 1]
+            n = 1 if a[q] == 0 else 3
+            out.extend(a[p + 1:q + n])
+            return q + n
+        raise ValueError(k)
+    end = walk(0)
+    assert end == len(a), (end, a)
+    return out
 
 
 def skip_tokens(o, p, n):
@@ -1313,7 +1456,7 @@ class AttrItemGen:
     """whole attributes as the generator prints them for definitions, struct / tuple fields and CHOICE variants, and the
     hand-written `#[asn(n)]` of ENUMERATED variants (encoding: coq/Extract/OpsCodegen.v run_attr_item)"""
     FIELDS = ["a", "ab", "my_field", "x1", "value", "long_name_2", "type", "match", "fn", "self", "ref", "yield", "q"]
-    VARIANTS = ["A", "Bc", "DarkBlue", "X1", "Red", "V2", "Other"]
+    VARIANTS = ["A", "Bc", "DarkBlue", "X1", "Red", "V2", "Other", "AB", "XYZ", "PlanBC", "AB1", "ItemAB", "ModeST"]
     CONSTS = ["A", "ABC", "MY_CONST", "X1", "HIGH_VALUE", "B2"]
 
     def __init__(self, rng):
@@ -1403,6 +1546,8 @@ def attr_item_expected(a):
         return [0, a[1]] + a[2:p] + [a[p]]
     if a[0] == 4:
         return [0] + a[1:]
+    e = aty_end(a, 1)
+    a = a[:1] + mangle_enum_lits(a[1:e]) + a[e:]
     e = aty_end(a, 1)
     # ... followed by the member's constants in to_rust_keep_names of the re-parsed definition: the same list (a CHOICE
     # variant carries none)
@@ -1568,6 +1713,14 @@ class C08(Spec):
                     pass
         ctx.setdefault("coverage_extra", {})["confusable_sibling_names"] = {
             "modules_op_3401": n3401, "extensible_headers_op_3413": n3413}
+        mods = pos = 0
+        for l in ctx["lines"]:
+            if l.startswith("3401 "):
+                d = desc_of_text(text_of_line(l))
+                k = nonidem_positions(d) if d is not None else 0
+                mods += 1 if k else 0
+                pos += k
+        ctx["coverage_extra"]["non_idempotent_names"] = {"modules_op_3401_with_default_or_reference_position": mods, "positions": pos}
 
     def extra_checks(self, ctx):
         """op 3414: the constants Front/Descr.v computes for the re-parsed Rust model (its dump is part of the answer of
@@ -1638,7 +1791,7 @@ class C08(Spec):
         except (ValueError, IndexError):
             return ("malformed_answer", out[:200])
         back = o[p:]
-        if back == [0] + a:
+        if back == [0] + mangle_enum_lits(a):
             return None
         known = attr_deviation_class(a)
         if known:
